@@ -71,6 +71,22 @@ pub fn de_key<T: DeserializeOwned + Ord, I>(f: Fmt, b: &[u8], into: fn(T) -> I) 
     Ok(dec::<BTreeMap<T, u8>>(f, b)?.into_keys().map(into).collect())
 }
 
+/// the value formatted under a fixed list of format specs (plain, width/fill/alignment, precision, sign,
+/// zero padding): `Display` must be transparent under every one of them
+pub fn fmt_all<T: std::fmt::Display>(t: &T) -> Vec<String> {
+    vec![
+        format!("{}", t),
+        format!("{:>9}", t),
+        format!("{:*^11}", t),
+        format!("{:<7}|", t),
+        format!("{:.2}", t),
+        format!("{:+}", t),
+        format!("{:08}", t),
+        format!("{:^+12.3}", t),
+        format!("{:w$.p$}", t, w = 10, p = 1),
+    ]
+}
+
 pub fn run_arbitrary<'a, T: arbitrary::Arbitrary<'a>, I>(b: &'a [u8], into: fn(T) -> I) -> Result<I, String> {
     let mut u = arbitrary::Unstructured::new(b);
     T::arbitrary(&mut u).map(into).map_err(|e| format!("{e:?}"))
@@ -206,7 +222,7 @@ macro_rules! g_arbitrary {
 #[macro_export]
 macro_rules! g_display {
     () => {
-        Some(|raw: II| mk(raw).map(|v| format!("{}", v)))
+        Some(|raw: II| mk(raw).map(|v| $crate::glue::fmt_all(&v)))
     };
 }
 #[macro_export]
